@@ -453,9 +453,133 @@ func simHistory(r *RNG, length int) []string {
 	return n.out
 }
 
+// gettersAgree: what the PUBLIC state API returns (GetNick/…, ChannelList, UserList, Channels, Users, the
+// snapshots' fields, Perms.Lookup) must be exactly the tracked state that the hook dump shows (which is what is
+// compared with the model and, through it, with the reference).
+func gettersAgree(hook, get []string, cfgNick, cfgUser string) string {
+	kv := map[string]string{}
+	chans := map[string][]string{} // Name -> fields
+	users := map[string][]string{} // Nick -> fields
+	for _, l := range hook {
+		f := strings.Split(l, "\x00")
+		switch {
+		case f[0] == "chan" && len(f) >= 6:
+			chans[f[2]] = f
+		case f[0] == "user" && len(f) >= 10:
+			users[f[2]] = f
+		case len(f) == 1 && strings.Contains(l, "="):
+			i := strings.IndexByte(l, '=')
+			kv[l[:i]] = l[i+1:]
+		}
+	}
+	nch, nus := 0, 0
+	for _, l := range get {
+		f := strings.Split(l, "\x00")
+		switch {
+		case f[0] == "channel" && len(f) == 5:
+			nch++
+			h, ok := chans[f[1]]
+			if !ok {
+				return "Channels() returned untracked channel " + f[1]
+			}
+			if f[2] != h[3] || f[3] != h[4] || f[4] != h[5] {
+				return "snapshot of channel " + f[1] + " differs from the tracked channel: " + strings.Join(f[2:], "|") + " vs " + strings.Join(h[3:6], "|")
+			}
+		case f[0] == "user" && len(f) == 9:
+			nus++
+			h, ok := users[f[1]]
+			if !ok {
+				return "Users() returned untracked user " + f[1]
+			}
+			for i := 2; i <= 7; i++ {
+				if f[i] != h[i+1] {
+					return fmt.Sprintf("snapshot of user %s differs from the tracked user in field %d: %q vs %q", f[1], i, f[i], h[i+1])
+				}
+			}
+			hp := map[string]string{}
+			for _, x := range strings.Split(h[9], "\x01") {
+				if i := strings.LastIndexByte(x, '='); i >= 0 {
+					hp[x[:i]] = x[i+1:]
+				}
+			}
+			if f[8] != "" {
+				for _, x := range strings.Split(f[8], "\x01") {
+					i := strings.LastIndexByte(x, '=')
+					if i < 0 {
+						continue
+					}
+					want, ok := hp[x[:i]]
+					if !ok {
+						want = "00000"
+					}
+					got := x[i+1:]
+					if len(got) != 6 || (ok && got[0] != '1') || got[1:] != want {
+						return fmt.Sprintf("Perms.Lookup(%q) of user %s = %s, tracked %s (present=%v)", x[:i], f[1], got, want, ok)
+					}
+				}
+			}
+		case strings.HasPrefix(l, "nick=") || strings.HasPrefix(l, "ident=") || strings.HasPrefix(l, "host=") || strings.HasPrefix(l, "motd="):
+			i := strings.IndexByte(l, '=')
+			want := kv[l[:i]]
+			// GetNick / GetIdent fall back to the configured values until the server has told the client otherwise
+			if want == "" && l[:i] == "nick" {
+				want = cfgNick
+			}
+			if want == "" && l[:i] == "ident" {
+				want = cfgUser
+			}
+			if want != l[i+1:] {
+				return fmt.Sprintf("getter %s returns %q, tracked %q", l[:i], l[i+1:], kv[l[:i]])
+			}
+		case strings.HasPrefix(l, "channels="):
+			var names []string
+			for n := range chans {
+				names = append(names, n)
+			}
+			got := strings.Split(strings.TrimPrefix(l, "channels="), "\x01")
+			if l == "channels=" {
+				got = nil
+			}
+			sort.Strings(names)
+			g2 := append([]string(nil), got...)
+			sort.Strings(g2)
+			if strings.Join(names, "\x01") != strings.Join(g2, "\x01") {
+				return fmt.Sprintf("ChannelList() = %q, tracked %q", got, names)
+			}
+		case strings.HasPrefix(l, "users="):
+			var names []string
+			for n := range users {
+				names = append(names, n)
+			}
+			got := strings.Split(strings.TrimPrefix(l, "users="), "\x01")
+			if l == "users=" {
+				got = nil
+			}
+			sort.Strings(names)
+			g2 := append([]string(nil), got...)
+			sort.Strings(g2)
+			if strings.Join(names, "\x01") != strings.Join(g2, "\x01") {
+				return fmt.Sprintf("UserList() = %q, tracked %q", got, names)
+			}
+		}
+	}
+	if nch != len(chans) || nus != len(users) {
+		return fmt.Sprintf("Channels()/Users() returned %d/%d objects, %d/%d are tracked", nch, nus, len(chans), len(users))
+	}
+	return ""
+}
+
 func init() {
 	props["C04"] = runC04
 	sessionChecks["c04"] = func(c *Ctx, in, hin map[string]string, sc SessCfg, steps []string, cmp *SessCmp) {
+		for i := range cmp.ImplDump {
+			if i < len(cmp.Res.Getters) {
+				if msg := gettersAgree(cmp.Res.Dumps[i], cmp.Res.Getters[i], sc.Nick, sc.User); msg != "" {
+					c.R.Violation("c04.getters", hin, msg, "", "what the public state API returns is not the tracked state")
+					break
+				}
+			}
+		}
 		resp := c.L.Call("refcmp", encCfg(sc, false, false), hxList(steps))
 		if strings.HasPrefix(resp, "nonconformant") {
 			why := c.L.Call("confwhy", encCfg(sc, false, false), hxList(steps))
